@@ -107,3 +107,42 @@ extern "C" void h_roundtrip(void)
 	vp_note(txt.length());
 	vp_reach(3);
 }
+
+// numeric character references: p0 = 0 hex / 1 decimal, p1 = number of digits, p2 = 0 in text / 1 in an attribute value
+extern "C" void h_charref(void)
+{
+	int dec = vp_param(0), nd = vp_param(1), inattr = vp_param(2);
+	char doc[48]; int n = 0;
+	const char* pre = inattr ? "<a b=\"" : "<a>";
+	while (*pre) doc[n++] = *pre++;
+	doc[n++] = '&'; doc[n++] = '#'; if (!dec) doc[n++] = 'x';
+	long long code = 0;
+	for (int i = 0; i < nd; i++) {
+		char c = (char)nondet_u8();
+		if (dec) { vp_assume(c >= '0' && c <= '9'); code = code * 10 + (c - '0'); }
+		else { vp_assume((c >= '0' && c <= '9') || (c >= 'a' && c <= 'f') || (c >= 'A' && c <= 'F')); code = code * 16 + (c <= '9' ? c - '0' : (c | 32) - 'a' + 10); }
+		doc[n++] = c;
+	}
+	doc[n++] = ';';
+	const char* post = inattr ? "\"/>" : "</a>";
+	while (*post) doc[n++] = *post++;
+	doc[n] = 0;
+	Xml x = Xml::decode(doc);
+	bool scalar = code >= 1 && code <= 0x10FFFF && !(code >= 0xD800 && code <= 0xDFFF);
+	if (!inattr && code <= 32) scalar = false;      // white-space-only text is not kept as a text node
+	if (scalar)
+	{
+		byte ref[5]; int rl;
+		unsigned c = (unsigned)code;
+		if (c < 0x80) { ref[0] = (byte)c; rl = 1; }
+		else if (c < 0x800) { ref[0] = 0xC0 | (c >> 6); ref[1] = 0x80 | (c & 63); rl = 2; }
+		else if (c < 0x10000) { ref[0] = 0xE0 | (c >> 12); ref[1] = 0x80 | ((c >> 6) & 63); ref[2] = 0x80 | (c & 63); rl = 3; }
+		else { ref[0] = 0xF0 | (c >> 18); ref[1] = 0x80 | ((c >> 12) & 63); ref[2] = 0x80 | ((c >> 6) & 63); ref[3] = 0x80 | (c & 63); rl = 4; }
+		vp_assert(!x.isnull() && (bool)x, "a document with a numeric character reference decodes");
+		String got = inattr ? x["b"] : x.text();
+		vp_assert(got.length() == rl, "a numeric character reference decodes to the UTF-8 form of its code point (length)");
+		for (int i = 0; i < rl && i < got.length(); i++) vp_assert((byte)(*got)[i] == ref[i], "a numeric character reference decodes to the UTF-8 form of its code point (bytes)");
+	}
+	vp_note(scalar ? 1 : 0);
+	vp_reach(4);
+}
